@@ -3,16 +3,21 @@ import Ysshra.Model.Cond
 open Ysshra Ysshra.Cond
 namespace Ysshra.Drv
 
-def parseEvents (s : String) : Option (List Event) :=
+/-- one output position: a single event, or a burst `B:c1+c2+…` of requests sent at the same moment
+    (processed in the order written; `c20_burst_order` shows the order does not matter) -/
+def parseEvents (s : String) : Option (List (List Event)) :=
   (s.splitOn ",").mapM fun (e : String) =>
     match e.splitOn ":" with
+    | ["B", cs] => (cs.splitOn "+").mapM fun (c : String) => do
+        let c ← c.toNat?
+        if c ≥ 256 then none else pure (Event.request (UInt8.ofNat c))
     | [k, c] => do
       let c ← c.toNat?
       if c ≥ 256 then none else
-      if k == "r" then pure (Event.request (UInt8.ofNat c))
+      if k == "r" || k == "R" then pure [Event.request (UInt8.ofNat c)]
       else if k.startsWith "w" then do
         let t ← (k.drop 1).toString.toNat?
-        pure (Event.wait t (UInt8.ofNat c))
+        pure [Event.wait t (UInt8.ofNat c)]
       else none
     | _ => none
 
@@ -29,7 +34,9 @@ def handleCond (op : String) (args : List String) (impl : Option (List String)) 
     match parseEvents evS with
     | none => some badProto
     | some evs =>
-      let (_, rels) := Cond.run 40 [] evs
+      let (_, rels) := evs.foldl (fun (acc : Cond.State × List (List Nat)) grp =>
+          let (s', r) := Cond.run 40 acc.1 grp
+          (s', acc.2 ++ [r.flatten])) ([], [])
       let expected := [String.join (rels.map showRel)]
       some ⟨expected, impl.map fun out =>
         if out.head? == some "crash" then "bad:crash"
